@@ -1,6 +1,8 @@
+\* the evaluator satisfies every law (RngN is replaced per tier)
 INIT Init
 NEXT Next
 CONSTANTS
   Bug = "none"
+  RngN = 5
 INVARIANT AllLaws
 CHECK_DEADLOCK FALSE
